@@ -502,6 +502,8 @@ const DOC_ARC: &str = "x: &a {v: 1}\nw: *a\nz: 3\n";
 const DOC_REC: &str = "foo: &a\n  k1: 1\n  k3: *a\n";
 const DOC_NESTED: &str = "x: &a {v: 1}\nn: nonzero\ny: *a\n";
 const DOC_NZ: &str = "a: 1\nk:   0\n";
+/// where the ratio refusal of the `ratio` call is reported (end of the stream)
+const RATIO_LOC: u64 = (122 << 20) | 1;
 const DOC_PANIC: &str = "x: &a {v: 1}\ny: &b {v: 2}\n";
 
 fn shared_text(s: &Shared) -> String {
@@ -729,6 +731,29 @@ fn alphabet() -> &'static [CallDef] {
             run: || ser_lookalikes(|o| { o.quote_all = true; o.tagged_enums = true; o.indent_step = 4; o.compact_list_indent = true; }), script: || vec![],
         },
         CallDef {
+            name: "report", what: "from_str_with_options with a budget-report callback: the result text carries every counter of the report (two anchors, one alias) — a counter that survives an earlier call shows here", base: true,
+            run: || {
+                let seen = Rc::new(std::cell::RefCell::new(String::from("no-report")));
+                let sink = seen.clone();
+                let o = Options::default().with_budget_report(move |r| *sink.borrow_mut() = format!("{r:?}"));
+                let r = catch(|| serde_saphyr::from_str_with_options::<Vec<u32>>("- &x 1\n- &y 2\n- *x\n", o));
+                let rep = seen.borrow().clone();
+                finish(r, |d| format!("{d:?} {}", hex(&rep)), |_| vec![])
+            },
+            script: || vec![A::Scope(false, vec![])],
+        },
+        CallDef {
+            name: "ratio", what: "alias-heavy document (1 anchor, 120 aliases) under the default budget: refused by the alias/anchor ratio — the verdict and its counters depend on the anchors counted in THIS call only", base: true,
+            run: || {
+                let mut doc = String::from("- &a 1\n");
+                for _ in 0..120 { doc.push_str("- *a\n"); }
+                let mut o = Options::default();
+                o.with_snippet = false;
+                finish(catch(|| serde_saphyr::from_str_with_options::<Vec<u32>>(&doc, o)), |d| format!("{}", d.len()), |_| vec![])
+            },
+            script: || vec![A::Scope(false, vec![A::Err(RATIO_LOC)])],
+        },
+        CallDef {
             name: "nonzero", what: "from_str::<NonZeroU8>(\"0\"): static Serde error with NO guard of the call's own", base: true,
             run: || finish(catch(|| serde_saphyr::from_str::<std::num::NonZeroU8>("0")), |d| format!("{d}"), |_| vec![]),
             script: || vec![A::Scope(false, vec![A::Serr])],
@@ -918,7 +943,7 @@ fn generate(a: &Args) -> i32 {
         "distinct_nontrivial": nt,
         "calls_run": calls_run,
         "alphabet": alpha.iter().map(|c| format!("{}: {}", c.name, c.what)).collect::<Vec<_>>(),
-        "rule": format!("all sequences of length 1..{max_len} over an alphabet of {n} top-level calls (success with Rc/Arc/recursive anchors, failure inside an anchor-wrapper context, failure midway through an anchored sequence, budget breach, static Serde errors with and without a guard — after the last entry of a mapping (key location), during a key, in a mapping value (value guard) —, leaked map access, panicking visitor, abandoned read iterator, from_multiple, from_str_valid, to_string with shared pointers, a type whose Deserialize impl performs a nested parse) plus {random_long} random sequences of length 5..12 (seeded); every sequence on its own fresh thread; one differential case per sequence (model predicts per call: outcome, sharing pattern, thread-local state at every probe point and after the call); oracle: each call's full textual result = result on a fresh thread, probes clean after each call; nested sweep: every base call nested at 4 host positions (struct field, inside an RcAnchor context, sequence elements, inside an RcRecursive node). Non-trivial = sequences of length >= 2."),
+        "rule": format!("all sequences of length 1..{max_len} over an alphabet of {n} top-level calls (success with Rc/Arc/recursive anchors, failure inside an anchor-wrapper context, failure midway through an anchored sequence, budget breach, budget-report callback with every counter in the result, alias/anchor-ratio refusal, static Serde errors with and without a guard — after the last entry of a mapping (key location), during a key, in a mapping value (value guard) —, leaked map access, panicking visitor, abandoned read iterator, from_multiple, from_str_valid, to_string with shared pointers, a type whose Deserialize impl performs a nested parse) plus {random_long} random sequences of length 5..12 (seeded); every sequence on its own fresh thread; one differential case per sequence (model predicts per call: outcome, sharing pattern, thread-local state at every probe point and after the call); oracle: each call's full textual result = result on a fresh thread, probes clean after each call; nested sweep: every base call nested at 4 host positions (struct field, inside an RcAnchor context, sequence elements, inside an RcRecursive node). Non-trivial = sequences of length >= 2."),
     }));
     std::fs::write(format!("{}/calls.oracle.jsonl", a.out), oracle.join("\n") + if oracle.is_empty() { "" } else { "\n" }).unwrap();
     0
